@@ -843,8 +843,12 @@ impl Family for C15Family {
         };
         if res.is_err() {
             let loc = crate::take_panic_location();
-            let site = loc.rsplit("/repo/").next().unwrap_or(&loc).to_owned();
-            let site = if loc.contains("/repo/") { site } else { format!("dep:{}", loc.rsplit('/').take(3).collect::<Vec<_>>().into_iter().rev().collect::<Vec<_>>().join("/")) };
+            // name the site by crate-relative path, wherever the repository is checked out
+            let crates = ["passkey-types/", "passkey-client/", "passkey-authenticator/", "passkey-transports/", "public-suffix/", "passkey/"];
+            let site = match crates.iter().filter_map(|c| loc.find(&format!("/{c}src/")).map(|i| i + 1)).min() {
+                Some(i) => loc[i..].to_owned(),
+                None => format!("dep:{}", loc.rsplit('/').take(3).collect::<Vec<_>>().into_iter().rev().collect::<Vec<_>>().join("/")),
+            };
             fail(format!("C15/panic:{}:{site}", l.decoder), format!("decoder {} panicked at {loc} on a {input_len}-byte input", l.decoder));
         }
         if reading.max_request > 256 * input_len + (2 << 20) {
